@@ -1,2 +1,101 @@
-/- Oracle for C05 (stub: replaced when the property's model is built). -/
-def main : IO Unit := pure ()
+/-
+  Oracle for C05: reads the harness' stream (see harness/cmd/c05/main.go), parses the *same source
+  text* the real tool was given (S lines) into `Basm.Source`, and prints
+      R ok | R err <class> | R unsupported         `Basm.assemble` on it
+      P entryfirst=<0|1> litjump=<0|1>              facts about the source used for the known-finding signature
+      M/C/W/D/II/IO/LK/E                            the model's machine in the harness' canonical text
+      WF <0|1>                                      `WfBM` of the model's machine (C16's `assemble_wf`, evaluated)
+  and, per `SIM <cp>` block, echoes the stimuli and prints the state of the *reference
+  interpreter* (`Basm.refStep` on the source text, not on the ROM) after every tick in the harness'
+  X format.  The harness' own R/M…E/X lines are consumed and not echoed.
+-/
+import BMV.Basm
+import BMV.BasmSem
+import BMV.BasmText
+import BMV.Lines
+open BMV BMV.Bits BMV.Basm BMV.BasmText BMV.Lines
+
+structure St where
+  fix : Bool := false                             -- the tree under test has the `entry` repair
+  delta : Nat := 0                                -- address shift of the section being interpreted (1 = a jump was placed at 0)
+  pendingJump : Bool := false                     -- the first tick of the machine is that jump
+  src : List String := []
+  parsed : Option Source := none
+  bm : Option BM := none
+  sim : Option (SecCtx × RefState) := none     -- section being interpreted, reference state
+  simArch : Option Arch := none
+  dead : Bool := false                            -- reference interpreter has no meaning from here on
+
+def errName : Err → String
+  | .dupsymbol => "dupsymbol" | .entry => "entry" | .nomatch => "nomatch" | .notfound => "notfound"
+  | .rsize => "rsize" | .noregs => "noregs" | .asm => "asm"
+
+def joinN (l : List Nat) : String := ",".intercalate (l.map toString)
+def joinB (l : List Bool) : String := ",".intercalate (l.map fun b => if b then "1" else "0")
+def bools (s : String) : List Bool := (commaList s).map (· == "1")
+def nats (s : String) : List Nat := (commaList s).map nat!
+
+def dumpRef (a : Arch) (c : SecCtx) (delta : Nat) (s : RefState) : String :=
+  let d := s.deferred.mergeSort (· ≤ ·)
+  let regs := (List.range (2 ^ a.r)).map s.regs
+  let outs := (List.range a.m).map s.outputs
+  let ov := (List.range a.m).map s.outValid
+  let ir := (List.range a.n).map s.inRecv
+  s!"X pc={delta + c.addr s.pos} r={joinN regs} o={joinN outs} ov={joinB ov} ir={joinB ir} d={joinN d}"
+
+def facts (src : Source) : String :=
+  let used := src.cps.filterMap fun c => src.sections.find? (·.name == c.romcode)
+  let ef := used.all fun s => entryFirst s.lines
+  let lj := used.any fun s => s.lines.any fun l => (l.op == "j" || l.op == "jmp" || l.op == "jz") && l.args.any (fun a => match a with | .num _ => true | _ => false)
+  s!"P entryfirst={if ef then 1 else 0} litjump={if lj then 1 else 0}"
+
+def step (st : St) (line : String) : St × List String :=
+  match fields line with
+  | "MODE" :: rest => ({ st with fix := (kv rest "entryjump").getD "0" == "1" }, [line])
+  | "CASE" :: _ => ({ fix := st.fix }, [line])
+  | "S" :: _ => ({ st with src := st.src ++ [(line.drop 2).toString] }, [line])
+  | "R" :: _ =>
+    match parseSource st.src with
+    | none => ({ st with parsed := none }, ["R unsupported"])
+    | some src =>
+      match assemble src st.fix with
+      | .error e => ({ st with parsed := some src }, [s!"R err {errName e}", facts src])
+      | .ok bm => ({ st with parsed := some src, bm := some bm },
+                   [ "R ok", facts src ] ++ showBM bm ++ [s!"WF {if WfBM bm then 1 else 0}"])
+  | ["SIM", i] =>
+    let k := nat! i
+    match st.parsed, st.bm with
+    | some src, some bm =>
+      match src.cps[k]?, bm.cps[k]? with
+      | some c, some cp =>
+        match src.sections.find? (·.name == c.romcode) with
+        | some sec =>
+          let ctx := SecCtx.of src sec
+          match refInit ctx with
+          | some r0 =>
+            let shifted := st.fix && !(entryFirst sec.lines)
+            ({ st with sim := some (ctx, r0), simArch := some cp.arch, dead := false,
+                       delta := if shifted then 1 else 0, pendingJump := shifted }, [line])
+          | none => ({ st with sim := none }, [line, "X noentry"])
+        | none => ({ st with sim := none }, [line, "X nosection"])
+      | _, _ => ({ st with sim := none }, [line, "X nocp"])
+    | _, _ => ({ st with sim := none }, [line])
+  | "T" :: _ => (st, [line])
+  | "V" :: rest =>
+    match st.sim, st.simArch with
+    | some (ctx, rs), some a =>
+      if st.dead then (st, [line, "X undefined"]) else
+      if st.pendingJump then ({ st with pendingJump := false }, [line, dumpRef a ctx st.delta rs]) else
+      let ins := nats ((kv rest "in").getD "")
+      let iv := bools ((kv rest "iv").getD "")
+      let orr := bools ((kv rest "or").getD "")
+      let env : Env := { inputs := fun k => ins.getD k 0, inValid := fun k => iv.getD k false, outRecv := fun k => orr.getD k false }
+      match refStep ctx env rs with
+      | some rs' => ({ st with sim := some (ctx, rs') }, [line, dumpRef a ctx st.delta rs'])
+      | none => ({ st with dead := true }, [line, "X undefined"])
+    | _, _ => (st, [line])
+  | "END" :: _ => (st, [line])
+  | _ => (st, [])
+
+def main : IO Unit := do
+  let _ ← foldStdin ({} : St) step
